@@ -82,7 +82,7 @@ func CheckC08(run *ev.Run) {
 		"(a) the real gatherOperations (verif accessor) against the Lean model on the same candidates; (b) generate server and count: one handler registration per " +
 		"(method, path) of the spec, each with its own constructor, one model type per definition — or generation must fail; distinct = (name multiset, which collide)"
 	run.Trusted = append(run.Trusted, "generator.VerifGatherOperations (verif accessor)", "genlab in-process generation; regexp scan of the generated API file")
-	run.Assume = append(run.Assume, "routing is checked statically from the generated initHandlerCache (method, path -> constructor), not by sending requests",
+	run.Assume = append(run.Assume, "routing of the colliding-name specs is checked statically from the generated initHandlerCache (method, path -> constructor); requests are sent only in the reachability phase (distinct operationIds, paths incl. / and trailing slash)",
 		"candidates with equal keys are given to the model in both tie orders (sort.Sort is not stable)")
 	for i := 0; i < n; i++ {
 		// choose operations
@@ -251,6 +251,68 @@ func CheckC08(run *ev.Run) {
 			run.Sample(map[string]interface{}{"operations": ops, "definitions": defs, "routes_registered": len(routes), "model_files": files})
 		}
 		_ = os.RemoveAll(root)
+	}
+	// (c) reachability: every operation of a spec answers on its own (method, path) in the compiled server
+	nReach := 1
+	if run.Tier == "thorough" {
+		nReach = 4
+	}
+	routePool := []string{"/", "/x", "/x/{id}", "/x/{id}/y", "/x-y", "/X", "/x.json", "/y/", "/z/{a}/{b}"}
+	for k := 0; k < nReach; k++ {
+		var ops []c08op
+		seen := map[string]bool{}
+		for _, p := range routePool {
+			if p != "/" && r.Chance(1, 4) {
+				continue
+			}
+			for _, m := range collMeths {
+				if r.Chance(1, 2) && !seen[m+p] {
+					seen[m+p] = true
+					ops = append(ops, c08op{Method: m, Path: p, ID: fmt.Sprintf("op%d", len(ops))})
+				}
+			}
+		}
+		if len(ops) == 0 {
+			continue
+		}
+		spec := c08Spec(ops, nil)
+		sb, err := BuildServer("c08r", spec)
+		replay := map[string]interface{}{"spec": json.RawMessage(spec), "how": "generate the server, register one handler per operation, send one request per (method, path) of the spec"}
+		if err != nil {
+			st["reach-build-failed"]++
+			run.Deviation("server-does-not-build", "a valid spec generates a server that does not build: "+tail(err.Error(), 600), replay)
+			if sb != nil {
+				sb.Remove()
+			}
+			continue
+		}
+		reached := map[string]string{}
+		for _, o := range ops {
+			u := strings.NewReplacer("{id}", "v1", "{a}", "v2", "{b}", "v3").Replace(o.Path)
+			resp, err := sb.Do(ServerReq{Method: strings.ToUpper(o.Method), URL: u})
+			run.Traces++
+			run.Case("reach|" + o.Method + " " + o.Path)
+			if err != nil {
+				st["reach-server-error"]++
+				continue
+			}
+			if !resp.Reached {
+				st["reach-missed"]++
+				replay["request"] = o
+				replay["response"] = resp
+				run.Deviation("unreachable:"+o.Path, fmt.Sprintf("%s %s is an operation of the spec but the generated server answers %d without reaching a handler", strings.ToUpper(o.Method), o.Path, resp.Status), replay)
+				continue
+			}
+			if prev, dup := reached[resp.Op]; dup {
+				st["reach-shared"]++
+				replay["request"] = o
+				run.Deviation("shared-handler:"+o.Path, fmt.Sprintf("%s %s reaches the handler %s that %s also reaches", o.Method, o.Path, resp.Op, prev), replay)
+				continue
+			}
+			reached[resp.Op] = o.Method + " " + o.Path
+			st["reach-ok"]++
+		}
+		sb.Remove()
 	}
 	run.Extra["distribution"] = st
 }
